@@ -113,7 +113,9 @@ const syncCalleesDoc = "walletdb.View walletdb.Update walletdb.*.ForEach walletd
 	"func(){..}() is synchronous; time.AfterFunc literals are goroutines; " +
 	"function-typed parameters that are only called and local closures that are only called make their literals sync; " +
 	"container/heap and sort.Sort/Stable call Len/Less/Swap/Push/Pop of their argument; " +
-	"fn_requires leaves out the method calls on the fresh object in a constructor"
+	"fn_requires leaves out the method calls on the fresh object in a constructor; " +
+	"shared locals (local:<fn>:<x>: captured by a goroutine literal, or a map / slice handed to a go statement): a_fresh = before this instance is published; " +
+	"a goroutine handed a map / slice is assumed to read it (ctx goarg<n>), its writes through the alias are not seen"
 
 // ---------------------------------------------------------------- locksets
 
@@ -240,6 +242,7 @@ type declInfo struct {
 	u          *universe
 	ordinal    map[*ast.FuncLit]int
 	goPos      []token.Pos
+	goStmts    []token.Pos // the go statements only, in source order
 	gotoLabels map[string]bool
 	dirty      map[types.Object]bool
 	freshDef   map[types.Object]*fnode
@@ -331,18 +334,47 @@ type vinfo struct {
 	writes, atomics, calls, sites int
 }
 
+// sharedVar: a local variable or parameter that a goroutine started by its
+// FuncDecl can see: captured by a goroutine literal, or a map / slice handed
+// to a go statement
+type sharedVar struct {
+	name    string
+	obj     *types.Var
+	capLits []*ast.FuncLit // the goroutine literals that capture it
+	pubPos  []token.Pos    // the literals / go statements that publish it, or the start of the loop around them that does not enclose the declaration
+}
+
+// fresh: the occurrence at pos is before this instance of the variable is
+// published
+func (sv *sharedVar) fresh(pos token.Pos) bool {
+	for _, g := range sv.capLits {
+		if g.Pos() <= pos && pos < g.End() {
+			return false
+		}
+	}
+	for _, p := range sv.pubPos {
+		if pos >= p {
+			return false
+		}
+	}
+	return true
+}
+
 type rawSite struct {
-	v     string
-	node  *fnode
-	kind  string // KRead KWrite KCall KAtomicR KAtomicW KAddr
-	m     string
-	locks lockset
-	root  types.Object // root variable of the base expression
-	fresh bool
-	ctor  bool
-	preGo bool
-	file  string
-	line  int
+	v       string
+	node    *fnode
+	kind    string // KRead KWrite KCall KAtomicR KAtomicW KAddr
+	m       string
+	locks   lockset
+	root    types.Object // root variable of the base expression
+	local   bool         // site of a shared local: fresh is already decided
+	ctxOv   string       // synthetic site: a_ctx ("goarg<n>") ...
+	rootsOv []string     // ... and roots
+	fresh   bool
+	ctor    bool
+	preGo   bool
+	file    string
+	line    int
 }
 
 type analysis struct {
@@ -363,6 +395,9 @@ type analysis struct {
 	paramObj  map[types.Object]string   // parameter object -> key
 	closures  map[types.Object]*tracked // locals bound once to a literal
 	kinds     map[*ast.FuncLit]string   // go, defer, sync, func
+	shared    map[types.Object]*sharedVar
+	litNode   map[*ast.FuncLit]*fnode
+	nshared   int
 	npkgs     int
 	nlits     int
 }
@@ -1032,6 +1067,12 @@ func (w *walker) stmt(s ast.Stmt, label string) bool {
 					}
 				}
 			}
+			// a variable that := only re-uses is assigned
+			for _, l := range s.Lhs {
+				if id, ok := l.(*ast.Ident); ok && id.Name != "_" && w.info.Defs[id] == nil {
+					w.written(l)
+				}
+			}
 		} else {
 			for _, l := range s.Lhs {
 				w.written(l)
@@ -1074,6 +1115,7 @@ func (w *walker) stmt(s ast.Stmt, label string) bool {
 		return false
 	case *ast.GoStmt:
 		w.call(s.Call, callGo)
+		w.goArgs(s.Call, s.Pos())
 		return false
 	case *ast.DeferStmt:
 		w.call(s.Call, callDefer)
@@ -1515,6 +1557,10 @@ func (w *walker) written(e ast.Expr) {
 		return
 	}
 	switch x := e.(type) {
+	case *ast.Ident:
+		if o, ok := w.info.Uses[x].(*types.Var); ok {
+			w.localSite(o, "KWrite", x.Pos())
+		}
 	case *ast.SelectorExpr:
 		// a field of an anonymous struct or of a type outside the checkout
 		if isStructValue(w.info.TypeOf(x.X)) {
@@ -1557,6 +1603,12 @@ func (w *walker) addr(e ast.Expr) {
 		return
 	}
 	switch x := e.(type) {
+	case *ast.Ident:
+		if o, ok := w.info.Uses[x].(*types.Var); ok && w.a.shared[o] != nil {
+			w.localSite(o, "KAddr", x.Pos())
+		} else {
+			w.expr(e)
+		}
 	case *ast.IndexExpr:
 		w.expr(x.Index)
 		switch types.Unalias(w.info.TypeOf(x.X)).Underlying().(type) {
@@ -1568,6 +1620,96 @@ func (w *walker) addr(e ast.Expr) {
 	default:
 		w.expr(e)
 	}
+}
+
+// localSite: an occurrence of a shared local (see sharedScan)
+func (w *walker) localSite(o *types.Var, kind string, pos token.Pos) {
+	if !w.record {
+		return
+	}
+	sv := w.a.shared[o]
+	if sv == nil {
+		return
+	}
+	preGo := true
+	for _, g := range w.di.goPos {
+		if g < pos {
+			preGo = false
+			break
+		}
+	}
+	p := w.fset.Position(pos)
+	w.a.raw = append(w.a.raw, rawSite{
+		v: sv.name, node: w.node, kind: kind, locks: w.cur.clone(), local: true, fresh: sv.fresh(pos),
+		preGo: preGo, file: w.di.file, line: p.Line,
+	})
+}
+
+// goArgs: a shared map / slice handed to a go statement: the started
+// goroutine is assumed to read it
+func (w *walker) goArgs(c *ast.CallExpr, stmtPos token.Pos) {
+	if !w.record {
+		return
+	}
+	var args []*sharedVar
+	for _, arg := range c.Args {
+		if id, ok := unparen(arg).(*ast.Ident); ok {
+			if o, ok := w.info.Uses[id].(*types.Var); ok {
+				if sv := w.a.shared[o]; sv != nil && isMapOrSlice(o.Type()) {
+					args = append(args, sv)
+				}
+			}
+		}
+	}
+	if len(args) == 0 {
+		return
+	}
+	var roots []string
+	fun := unparen(c.Fun)
+	if fl, ok := fun.(*ast.FuncLit); ok {
+		if n := w.a.litNode[fl]; n != nil {
+			roots = append(roots, "go:"+n.display())
+		}
+	} else if o := w.closureVar(fun); o != nil {
+		for _, fl := range w.a.closures[o].lits {
+			if n := w.a.litNode[fl]; n != nil {
+				roots = append(roots, "go:"+n.display())
+			}
+		}
+	} else if fn := w.funcRef(fun); fn != nil {
+		var recvT types.Type
+		if se, ok := fun.(*ast.SelectorExpr); ok {
+			recvT = w.info.TypeOf(se.X)
+		}
+		for _, t := range w.targets(fn, recvT) {
+			roots = append(roots, "go:"+t.display())
+		}
+	}
+	if len(roots) == 0 {
+		roots = []string{"go:unknown"}
+	}
+	sort.Strings(roots)
+	n := 1
+	for _, g := range w.di.goStmts {
+		if g < stmtPos {
+			n++
+		}
+	}
+	p := w.fset.Position(stmtPos)
+	for _, sv := range args {
+		w.a.raw = append(w.a.raw, rawSite{
+			v: sv.name, node: w.node, kind: "KRead", locks: lockset{}, local: true,
+			ctxOv: "goarg" + strconv.Itoa(n), rootsOv: roots, file: w.di.file, line: p.Line,
+		})
+	}
+}
+
+func isMapOrSlice(t types.Type) bool {
+	switch t.Underlying().(type) {
+	case *types.Map, *types.Slice:
+		return true
+	}
+	return false
 }
 
 // valueRef: a function or method used as a value
@@ -1663,6 +1805,8 @@ func (w *walker) expr(e ast.Expr) {
 		case *types.Var:
 			if isPkgLevel(o) {
 				w.site(o, "KRead", "", x.Pos(), nil)
+			} else {
+				w.localSite(o, "KRead", x.Pos())
 			}
 		case *types.Func:
 			w.valueRef(o, nil)
@@ -1759,6 +1903,7 @@ func (w *walker) literal(fl *ast.FuncLit, how int) {
 	n := &fnode{order: len(w.a.nodes), name: w.di.name, ctx: ctx, kind: kind, parent: w.node, di: w.di, callees: map[*fnode]bool{}}
 	w.a.nodes = append(w.a.nodes, n)
 	w.a.nlits++
+	w.a.litNode[fl] = n
 	if b := w.a.litBind[fl]; b != nil && b.kind == bVar {
 		if t := w.a.closures[b.obj]; t != nil && t.ok && t.binds(fl) {
 			// a local closure that is only called: walked after the
@@ -2178,6 +2323,11 @@ func (w *walker) staticCall(c *ast.CallExpr, fn *types.Func, how int) {
 			if base, vs, ok := w.chain(u.X); ok {
 				w.access(base, vs, kind, "", u.X.Pos())
 				done = true
+			} else if id, ok := unparen(u.X).(*ast.Ident); ok {
+				if o, ok := w.info.Uses[id].(*types.Var); ok && w.a.shared[o] != nil {
+					w.localSite(o, kind, id.Pos())
+					done = true
+				}
 			}
 		}
 		if !done {
@@ -2294,6 +2444,7 @@ func prescan(di *declInfo, info *types.Info, body ast.Node) {
 			di.ordinal[x] = len(di.ordinal) + 1
 		case *ast.GoStmt:
 			di.goPos = append(di.goPos, x.Pos())
+			di.goStmts = append(di.goStmts, x.Pos())
 		case *ast.CallExpr:
 			if se, ok := unparen(x.Fun).(*ast.SelectorExpr); ok {
 				if f, ok := info.Uses[se.Sel].(*types.Func); ok && isAfterFunc(f) {
@@ -2676,6 +2827,123 @@ func (a *analysis) prepass(info *types.Info, fn *types.Func, body ast.Node) {
 	})
 }
 
+// sharedScan: the locals and parameters of a FuncDecl that a goroutine it
+// starts can see: (1) referenced inside a goroutine literal (go statement,
+// time.AfterFunc) and declared outside it, or (2) a map or slice passed as an
+// argument of a go statement.  Channels, functions, sync types and the
+// receiver are left out.
+func (a *analysis) sharedScan(di *declInfo, info *types.Info) {
+	fd := di.fd
+	recv := map[types.Object]bool{}
+	if fd.Recv != nil {
+		for _, f := range fd.Recv.List {
+			for _, nm := range f.Names {
+				if o := info.Defs[nm]; o != nil {
+					recv[o] = true
+				}
+			}
+		}
+	}
+	eligible := func(o types.Object) *types.Var {
+		v, ok := o.(*types.Var)
+		if !ok || !isLocalVar(v) || recv[v] || v.Name() == "_" {
+			return nil
+		}
+		switch v.Type().Underlying().(type) {
+		case *types.Chan, *types.Signature:
+			return nil
+		}
+		if cl, _ := a.classOf(v.Type()); cl == "sync" {
+			return nil
+		}
+		return v
+	}
+	var found []*sharedVar
+	get := func(v *types.Var) *sharedVar {
+		sv := a.shared[v]
+		if sv == nil {
+			sv = &sharedVar{obj: v}
+			a.shared[v] = sv
+			found = append(found, sv)
+		}
+		return sv
+	}
+	// publish: v becomes visible to a goroutine at pos; if a loop around
+	// that point does not enclose the declaration of v (the variable is not
+	// fresh per iteration), everything from the start of that loop on comes
+	// after a publication
+	publish := func(sv *sharedVar, pos token.Pos, stack []ast.Node) {
+		for _, s := range stack {
+			switch s.(type) {
+			case *ast.ForStmt, *ast.RangeStmt:
+				if !(s.Pos() <= sv.obj.Pos() && sv.obj.Pos() < s.End()) && s.Pos() < pos {
+					pos = s.Pos()
+				}
+			}
+		}
+		sv.pubPos = append(sv.pubPos, pos)
+	}
+	var stack []ast.Node
+	ast.Inspect(fd.Body, func(n ast.Node) bool {
+		if n == nil {
+			stack = stack[:len(stack)-1]
+			return true
+		}
+		switch x := n.(type) {
+		case *ast.Ident:
+			o := info.Uses[x]
+			if o == nil {
+				break
+			}
+			v := eligible(o)
+			if v == nil {
+				break
+			}
+			for i, s := range stack {
+				g, ok := s.(*ast.FuncLit)
+				if !ok || a.kinds[g] != "go" || (g.Pos() <= v.Pos() && v.Pos() < g.End()) {
+					continue
+				}
+				sv := get(v)
+				dup := false
+				for _, c := range sv.capLits {
+					if c == g {
+						dup = true
+					}
+				}
+				if !dup {
+					sv.capLits = append(sv.capLits, g)
+					publish(sv, g.Pos(), stack[:i])
+				}
+			}
+		case *ast.GoStmt:
+			for _, arg := range x.Call.Args {
+				if id, ok := unparen(arg).(*ast.Ident); ok {
+					if o := info.Uses[id]; o != nil {
+						if v := eligible(o); v != nil && isMapOrSlice(v.Type()) {
+							publish(get(v), x.Pos(), stack)
+						}
+					}
+				}
+			}
+		}
+		stack = append(stack, n)
+		return true
+	})
+	// names: local:<fn>:<x>, a second variable of that name gets #2, ...
+	sort.Slice(found, func(i, j int) bool { return found[i].obj.Pos() < found[j].obj.Pos() })
+	seen := map[string]int{}
+	for _, sv := range found {
+		seen[sv.obj.Name()]++
+		sv.name = "local:" + di.name + ":" + sv.obj.Name()
+		if k := seen[sv.obj.Name()]; k > 1 {
+			sv.name += "#" + strconv.Itoa(k)
+		}
+		a.vars[sv.name] = &vinfo{name: sv.name, class: "local"}
+		a.nshared++
+	}
+}
+
 // argSync: a function value passed as argument idx of a call of callee is
 // only called, synchronously, by the callee
 func (a *analysis) argSync(callee *types.Func, idx int) bool {
@@ -2827,7 +3095,8 @@ func main() {
 	a := &analysis{root: root, inPaths: map[string]bool{}, owner: map[*types.Var]string{}, vars: map[string]*vinfo{},
 		nodeByKey: map[string]*fnode{}, condAlias: map[string]map[string]bool{}, unres: map[[2]string]bool{}, anomalies: map[string]bool{},
 		opaque: map[string]bool{}, private: map[string]bool{}, litBind: map[*ast.FuncLit]*litBind{}, params: map[string]*tracked{},
-		paramObj: map[types.Object]string{}, closures: map[types.Object]*tracked{}, kinds: map[*ast.FuncLit]string{}}
+		paramObj: map[types.Object]string{}, closures: map[types.Object]*tracked{}, kinds: map[*ast.FuncLit]string{},
+		shared: map[types.Object]*sharedVar{}, litNode: map[*ast.FuncLit]*fnode{}}
 	for _, t := range readList(opaqueTypesTxt) {
 		a.opaque[t] = true
 	}
@@ -2930,6 +3199,14 @@ func main() {
 	}
 	var works []work
 	nfuncs := 0
+	// named struct types declared inside functions: their fields are
+	// variables like those of package-level types
+	type localType struct {
+		pkg *types.Package
+		fn  string
+		tn  *types.TypeName
+	}
+	var localTypes []localType
 	for _, l := range loads {
 		for _, p := range l.pkgs {
 			if analysed[p.PkgPath] {
@@ -2979,6 +3256,14 @@ func main() {
 							a.nodeByKey[funcKey(obj)] = n
 						}
 						if d.Body != nil {
+							ast.Inspect(d.Body, func(nd ast.Node) bool {
+								if ts, ok := nd.(*ast.TypeSpec); ok {
+									if tn, ok := p.TypesInfo.Defs[ts.Name].(*types.TypeName); ok && !tn.IsAlias() {
+										localTypes = append(localTypes, localType{p.Types, funcID(d), tn})
+									}
+								}
+								return true
+							})
 							prescan(di, p.TypesInfo, d.Body)
 							a.prepass(p.TypesInfo, obj, d.Body)
 							works = append(works, work{di: di, node: n, body: d.Body.List, info: p.TypesInfo, fset: p.Fset})
@@ -3003,6 +3288,39 @@ func main() {
 					di.node = n
 					a.nodes = append(a.nodes, n)
 					works = append(works, work{di: di, node: n, info: p.TypesInfo, fset: p.Fset, vals: vals})
+				}
+			}
+		}
+	}
+
+	// ---- the fields of the function-local struct types: "pkg.Type.field", or
+	// "pkg.Func$Type.field" if the name is also that of a package-level type or
+	// of another local type of the package
+	{
+		count := map[string]int{}
+		for _, lt := range localTypes {
+			count[lt.pkg.Path()+"."+lt.tn.Name()]++
+		}
+		for _, lt := range localTypes {
+			n, ok := lt.tn.Type().(*types.Named)
+			if !ok {
+				continue
+			}
+			st, ok := n.Underlying().(*types.Struct)
+			if !ok {
+				continue
+			}
+			tname := lt.tn.Name()
+			if count[lt.pkg.Path()+"."+tname] > 1 || lt.pkg.Scope().Lookup(tname) != nil {
+				tname = lt.fn + "$" + tname
+			}
+			for i := 0; i < st.NumFields(); i++ {
+				f := st.Field(i)
+				name := lt.pkg.Name() + "." + tname + "." + f.Name()
+				a.owner[f] = name
+				if a.vars[name] == nil {
+					cl, ext := a.classOf(f.Type())
+					a.vars[name] = &vinfo{name: name, class: cl, extPkg: ext, opaque: a.isOpaque(f.Type())}
 				}
 			}
 		}
@@ -3065,6 +3383,11 @@ func main() {
 
 	// ---- the walk
 	a.solveKinds()
+	for _, wk := range works {
+		if wk.di.fd != nil {
+			a.sharedScan(wk.di, wk.info)
+		}
+	}
 	for _, wk := range works {
 		w := &walker{a: a, info: wk.info, fset: wk.fset, di: wk.di, node: wk.node, cur: lockset{}, record: true, deferHeld: map[string]bool{}}
 		if wk.vals != nil {
@@ -3398,6 +3721,9 @@ func main() {
 	}
 	for i := range a.raw {
 		rs := &a.raw[i]
+		if rs.local {
+			continue
+		}
 		rs.ctor = rs.node.di.node.ctor
 		rs.fresh = a.isFreshObj(rs.root, rs.node)
 	}
@@ -3409,11 +3735,30 @@ func main() {
 		}
 		return rs.kind
 	}
+	// a synthetic site (a map / slice handed to a go statement) has its own
+	// ctx and roots and runs with nothing held
+	siteCtx := func(rs rawSite) string {
+		if rs.ctxOv != "" {
+			return rs.ctxOv
+		}
+		return rs.node.ctx
+	}
+	siteRoots := func(rs rawSite) []string {
+		if rs.ctxOv != "" {
+			return rs.rootsOv
+		}
+		return rs.node.roots
+	}
+	siteReq := func(rs rawSite) lockset {
+		if rs.ctxOv != "" {
+			return lockset{}
+		}
+		return reqOf(rs.node)
+	}
 	render := func(rs rawSite) kindedSite {
-		req := reqOf(rs.node)
-		line := fmt.Sprintf("mkA %s %s %s %s %s %s %v %v %v %s", coqStr(rs.v), coqStr(rs.node.name), coqStr(rs.node.ctx),
-			kindStr(rs), rs.locks.coq(), req.coq(), rs.fresh, rs.ctor, rs.preGo, coqStrList(rs.node.roots))
-		return kindedSite{line: line, key: []string{rs.v, rs.node.name, rs.node.ctx, kindStr(rs), rs.locks.coq(), line}, rs: rs}
+		line := fmt.Sprintf("mkA %s %s %s %s %s %s %v %v %v %s", coqStr(rs.v), coqStr(rs.node.name), coqStr(siteCtx(rs)),
+			kindStr(rs), rs.locks.coq(), siteReq(rs).coq(), rs.fresh, rs.ctor, rs.preGo, coqStrList(siteRoots(rs)))
+		return kindedSite{line: line, key: []string{rs.v, rs.node.name, siteCtx(rs), kindStr(rs), rs.locks.coq(), line}, rs: rs}
 	}
 
 	if len(locate) > 0 {
@@ -3453,8 +3798,8 @@ func main() {
 				if rs.file != file || rs.line != ln {
 					continue
 				}
-				j := jsite{Loc: loc, Var: rs.v, Fn: rs.node.name, Ctx: rs.node.ctx, Kind: rs.kind, Method: rs.m,
-					Locks: rs.locks.pairs(), Req: reqOf(rs.node).pairs(), Fresh: rs.fresh, Ctor: rs.ctor, PreGo: rs.preGo}
+				j := jsite{Loc: loc, Var: rs.v, Fn: rs.node.name, Ctx: siteCtx(rs), Kind: rs.kind, Method: rs.m,
+					Locks: rs.locks.pairs(), Req: siteReq(rs).pairs(), Fresh: rs.fresh, Ctor: rs.ctor, PreGo: rs.preGo}
 				b, _ := json.Marshal(j)
 				if seen[string(b)] {
 					continue
@@ -3586,8 +3931,8 @@ func main() {
 			if rs.m != "" {
 				kd += " " + rs.m
 			}
-			fmt.Printf("%s %s | %s | %s | %s | locks=%s req=%s | fresh=%v ctor=%v pre_go=%v | %s\n", mark, rs.v, rs.node.name, rs.node.ctx, kd,
-				rs.locks.coq(), reqOf(rs.node).coq(), rs.fresh, rs.ctor, rs.preGo, strings.Join(rs.node.roots, " "))
+			fmt.Printf("%s %s | %s | %s | %s | locks=%s req=%s | fresh=%v ctor=%v pre_go=%v | %s\n", mark, rs.v, rs.node.name, siteCtx(rs), kd,
+				rs.locks.coq(), siteReq(rs).coq(), rs.fresh, rs.ctor, rs.preGo, strings.Join(siteRoots(rs), " "))
 		}
 		fmt.Println("---- field_summary (class writes atomics calls sites)")
 		for _, n := range varNames {
@@ -3695,8 +4040,14 @@ func main() {
 	fmt.Fprintln(o, "From Verif Require Import C18.AccessTypes.")
 	fmt.Fprintln(o, "Import ListNotations.")
 	fmt.Fprintln(o, "Open Scope string_scope.")
-	fmt.Fprintf(o, "(* %d packages, %d functions, %d literals, %d variables, %d interesting, %d sites, %d unresolved calls; synchronous higher-order callees: %s *)\n",
-		a.npkgs, nfuncs, a.nlits, len(varNames), len(interesting), len(emit), len(unres), syncCalleesDoc)
+	nsharedInt := 0
+	for name := range interesting {
+		if a.vars[name].class == "local" {
+			nsharedInt++
+		}
+	}
+	fmt.Fprintf(o, "(* %d packages, %d functions, %d literals, %d variables (%d of them shared locals, %d interesting), %d interesting, %d sites, %d unresolved calls; synchronous higher-order callees: %s *)\n",
+		a.npkgs, nfuncs, a.nlits, len(varNames), a.nshared, nsharedInt, len(interesting), len(emit), len(unres), syncCalleesDoc)
 	var items []string
 	for _, k := range emit {
 		items = append(items, k.line)
